@@ -1,5 +1,6 @@
 import AFDriver.Wire
 import AFModel.FloatOps
+import AFModel.Build
 
 open Lean (Json)
 open AF AF.Wire
@@ -14,7 +15,7 @@ def parsePathArgs (j : Json) : Except String (List (Path × Float)) := do
     let v ← floatOfJson pair[1]!
     pure (p, v)
 
-def handleC01 (j : Json) : Except String Json := do
+def handleC01Comp (j : Json) : Except String Json := do
   let parsed ← parseNode (← j.getObjVal? "comp")
   let t := parsed.node
   let mut out : List (String × Json) := [
@@ -26,13 +27,130 @@ def handleC01 (j : Json) : Except String Json := do
   match j.getObjVal? "v" with
   | .ok vj =>
       let v ← vecOfJson vj
-      out := out ++ [("inst_vec", jsonOfInst (instFromVector floatOps t v))]
+      -- built with the member order `posLeL` (the order the C01 theorems are about); the `splitOn`
+      -- rendering `posLe` used by the other composition properties must give the same instance
+      let iL := jsonOfInst (instFromVector floatOpsL t v)
+      out := out ++ [("inst_vec", iL),
+        ("name_orders_agree", Json.bool (iL.compress == (jsonOfInst (instFromVector floatOps t v)).compress))]
   | .error _ => pure ()
   match j.getObjVal? "path_args" with
   | .ok pj =>
       let pa ← parsePathArgs pj
-      out := out ++ [("inst_path", jsonOfInst (inst floatOps (argsOfPaths t pa) t))]
+      out := out ++ [("inst_path", jsonOfInst (inst floatOpsL (argsOfPaths t pa) t))]
   | .error _ => pure ()
   pure (Json.mkObj out)
+
+/-! ## construction from the class signature (`AFModel/Build.lean`) -/
+
+partial def parseArgD (j : Json) : Except String ArgD := do
+  match (← getStr j "d") with
+  | "cfg" => pure .cfg
+  | "tup" => pure (.tup (← getNat j "n"))
+  | "sub" => pure (.sub (← getStr j "cls") (← parseArgs (← j.getObjVal? "args")))
+  | "str" => pure (.str (← getStr j "tag"))
+  | "opt" => pure .opt
+  | s => throw s!"bad argd {s}"
+where
+  parseArgs (j : Json) : Except String (List (String × ArgD)) := do
+    (← j.getArr?).toList.mapM fun e => do
+      let pair ← e.getArr?
+      if pair.size != 2 then throw "bad arg"
+      pure ((← pair[0]!.getStr?), (← parseArgD pair[1]!))
+
+partial def parseOv (j : Json) : Except String (Ov Float) := do
+  match (← getStr j "o") with
+  | "node" => pure (.node (← parseNode (← j.getObjVal? "node")).node)
+  | "int" => pure (.int (← getFloat j "v") (← getStr j "tag"))
+  | "cls" => pure (.cls (← getStr j "cls") (← parseArgD.parseArgs (← j.getObjVal? "args")))
+  | "list" => pure (.list (← (← getArr j "items").toList.mapM parseOv))
+  | "dict" => pure (.dict (← parseKw (← j.getObjVal? "items")))
+  | s => throw s!"bad override {s}"
+where
+  parseKw (j : Json) : Except String (List (String × Ov Float)) := do
+    (← j.getArr?).toList.mapM fun e => do
+      let pair ← e.getArr?
+      if pair.size != 2 then throw "bad keyword"
+      pure ((← pair[0]!.getStr?), (← parseOv pair[1]!))
+
+def binOpName : BinOp → String
+  | .add => "add" | .sub => "sub" | .mul => "mul" | .div => "div"
+  | .floordiv => "floordiv" | .mod => "mod" | .pow => "pow"
+
+def unOpName : UnOp → String
+  | .neg => "neg" | .abs => "abs" | .log => "log" | .log10 => "log10"
+
+partial def jsonOfNode : Node Float → Json
+  | .prior id => Json.mkObj [("k", "prior"), ("id", Json.num (id : Lean.JsonNumber))]
+  | .const v => Json.mkObj [("k", "const"), ("v", hexOfFloat v)]
+  | .opaque tag => Json.mkObj [("k", "opaque"), ("tag", tag)]
+  | .model cls ctor attrs => Json.mkObj [("k", "model"), ("cls", cls),
+      ("ctor", Json.arr (ctor.map Json.str).toArray), ("attrs", attrsJ attrs)]
+  | .coll attrs => Json.mkObj [("k", "coll"), ("attrs", attrsJ attrs)]
+  | .tuple attrs => Json.mkObj [("k", "tuple"), ("attrs", attrsJ attrs)]
+  | .arith op attrs l r => Json.mkObj [("k", "arith"), ("op", binOpName op), ("attrs", attrsJ attrs),
+      ("l", jsonOfNode l), ("r", jsonOfNode r)]
+  | .modif op attrs x => Json.mkObj [("k", "modif"), ("op", unOpName op), ("attrs", attrsJ attrs),
+      ("x", jsonOfNode x)]
+  | .array shape attrs => Json.mkObj [("k", "array"),
+      ("shape", Json.arr (shape.map (fun (n : Nat) => Json.num (n : Lean.JsonNumber))).toArray),
+      ("attrs", attrsJ attrs)]
+where
+  attrsJ (attrs : List (String × Node Float)) : Json :=
+    Json.arr (attrs.map (fun (k, n) => Json.arr #[Json.str k, jsonOfNode n])).toArray
+
+/-- answers about a composition the *model* built (`mkModel` / `mkCollection`) -/
+def builtAnswer (j : Json) (t : Node Float) (next : Nat) : Except String Json := do
+  let mut out : List (String × Json) := [
+    ("node", jsonOfNode t),
+    ("next", Json.num (next : Lean.JsonNumber)),
+    ("count", Json.num ((count t : Nat) : Lean.JsonNumber)),
+    ("ids", Json.arr ((uniqueIds t).map (fun (n : Nat) => Json.num (n : Lean.JsonNumber))).toArray),
+    ("paths", Json.arr ((paths t).map jsonOfPath).toArray)]
+  match j.getObjVal? "v" with
+  | .ok vj =>
+      let v ← vecOfJson vj
+      out := out ++ [("inst_vec", jsonOfInst (instFromVector floatOpsL t v))]
+  | .error _ => pure ()
+  pure (Json.mkObj out)
+
+def handleC01Build (j : Json) : Except String Json := do
+  let kind ← getStr j "build"
+  let base ← getNat j "base"
+  match kind with
+  | "model" =>
+      let sj ← j.getObjVal? "sig"
+      let sig : ClassSig := { name := (← getStr sj "name"), args := (← parseArgD.parseArgs (← sj.getObjVal? "args")) }
+      let kw ← parseOv.parseKw (← j.getObjVal? "kw")
+      let r := mkModel sig kw base
+      builtAnswer j r.1 r.2
+  | "collection" =>
+      let r := mkCollection (← parseOv (← j.getObjVal? "items")) base
+      builtAnswer j r.1 r.2
+  | "names" =>
+      -- the member order: `posLeL` (the order the theorems are about) beside `posLe`, and the names
+      -- `make_tuple_prior` / `append` make
+      let names ← (← getArr j "names").toList.mapM (·.getStr?)
+      let pairs := names.map (fun s => (s, ()))
+      let sortedL := (sortByName posLeL pairs).map (·.1)
+      let sortedS := (sortByName posLe pairs).map (·.1)
+      let members ← (← getArr j "members").toList.mapM fun e => do
+        let pair ← e.getArr?
+        if pair.size != 2 then throw "bad member"
+        pure (memberName (← pair[0]!.getStr?) (← pair[1]!.getNat?))
+      let idx ← (← getArr j "indices").toList.mapM (·.getNat?)
+      pure (Json.mkObj [
+        ("sorted", Json.arr (sortedL.map Json.str).toArray),
+        ("sorted_splitOn", Json.arr (sortedS.map Json.str).toArray),
+        ("keys", Json.arr (names.map (fun s =>
+            let k := posKeyS s
+            Json.arr #[Json.str k.1, Json.num (Lean.JsonNumber.fromInt k.2.1), Json.str k.2.2])).toArray),
+        ("members", Json.arr (members.map Json.str).toArray),
+        ("indices", Json.arr (idx.map (fun i => Json.str (indexName i))).toArray)])
+  | s => throw s!"bad build kind {s}"
+
+def handleC01 (j : Json) : Except String Json := do
+  match j.getObjVal? "build" with
+  | .ok _ => handleC01Build j
+  | .error _ => handleC01Comp j
 
 end AF.Driver
